@@ -111,7 +111,8 @@ inline DecodeResult decode(const std::vector<uint8_t>& in, unsigned* lenHist = n
 			unsigned i = 0;
 			for (int k = 0; k < 8; ++k) i = (i << 1) | unsigned(bits.bit());
 			unsigned upper = pt.d_code[i];
-			int extra = pt.d_len[i] - 2;
+			int dl = pt.d_len[i];
+			int extra = dl - 2;
 			for (int k = 0; k < extra; ++k) i = (i << 1) | unsigned(bits.bit());
 			unsigned offset = (upper << 6) | (i & 0x3F);
 			unsigned len = unsigned(sym) - 253;
@@ -119,7 +120,7 @@ inline DecodeResult decode(const std::vector<uint8_t>& in, unsigned* lenHist = n
 			for (unsigned k = 0; k < len; ++k) { uint8_t c = win[src]; src = (src + 1) & 4095; win[w] = c; w = (w + 1) & 4095; r.out.push_back(c); }
 			r.any_match = true;
 			if (lenHist) ++lenHist[len];
-			if (distClassHist) ++distClassHist[pt.d_len[i] - 3];
+			if (distClassHist) ++distClassHist[dl - 3];
 		}
 		if (bits.eos()) return r;
 	}
